@@ -50,6 +50,15 @@ def main():
         meta["validated_at_repo_head"] = sh("git -C /repo log -1 --format=%h")[1].strip()
         demo_dir = os.path.join(wt, "_demo")
         shutil.copytree(src, demo_dir)
+        # demos may hard-code the path of the worktree they were written in
+        origin = os.path.dirname(os.path.dirname(os.path.abspath(src)))
+        for root, _, files in os.walk(demo_dir):
+            for fn in files:
+                if fn.endswith((".py", ".sh")):
+                    fp = os.path.join(root, fn)
+                    txt = open(fp).read()
+                    if origin in txt:
+                        open(fp, "w").write(txt.replace(origin, wt))
         env = {"PYTHONPATH": wt}
         hs = None
         notes = open(os.path.join(src, "notes.md")).read() if os.path.exists(os.path.join(src, "notes.md")) else ""
